@@ -398,6 +398,9 @@ class _RangeShim:
         out.r = self.r[s]
         return out
 
+    def __len__(self):
+        return len(self.r)
+
 
 class _DF:
     class _Cols:
@@ -418,9 +421,9 @@ class _PA:
     _columns_dtype = None
     has_pandas_metadata = True
 
-    def __init__(self, start, step):
+    def __init__(self, start, step, stop=0):
         self.pandas_metadata = {"columns": [], "index_columns": [{"kind": "range", "name": None, "start": start,
-                                                                  "stop": 0, "step": step}],
+                                                                  "stop": stop, "step": step}],
                                 "column_indexes": []}
 
     def _dtypes(self, categories):
@@ -439,23 +442,26 @@ def _pick_i(v, lo, hi):
     raise ValueError(v)
 
 
-def h_range_index(start: int, step: int, size: int) -> bool:
+def h_range_index(start: int, step: int, size: int, first: int = 1) -> bool:
     """
-    pre: step != 0 and -3 <= step <= 3 and 1 <= size <= 5 and -2 <= start <= 2
+    pre: step != 0 and -3 <= step <= 3 and 1 <= size <= 5 and -2 <= start <= 2 and 1 <= first <= 5
     post: __return__
     """
     # the regenerated range index has exactly `size` labels start, start+step, ... (pandas refuses an index of the
     # wrong length, so a wrong count surfaces as an exception on read).  The three parameters are enumerated by
     # branching (every start incl. 0, every step incl. 1): which of them the code treats specially is its business;
     # all integer starts / sizes of the arithmetic itself are the SMT lemma's subject (lemmas.range_index)
-    start, step, size = _pick_i(start, -2, 2), _pick_i(step, -3, 3), _pick_i(size, 1, 5)
+    start, step, size, first = _pick_i(start, -2, 2), _pick_i(step, -3, 3), _pick_i(size, 1, 5), _pick_i(first, 1, 5)
+    # the recorded `stop` is that of the FIRST frame written (`first` rows); appends and row-group selections change
+    # the number of rows read, not the metadata
+    stop = start + first * step
     import pandas
     orig = pandas.RangeIndex
     pandas.RangeIndex = _RangeShim
     old = api._pre_allocate
     api._pre_allocate = lambda n, *a, **k: (_DF(n), {})
     try:
-        df, _ = _PA(start, step).pre_allocate(size, ["a"], None, None)
+        df, _ = _PA(start, step, stop).pre_allocate(size, ["a"], None, None)
     finally:
         pandas.RangeIndex = orig
         api._pre_allocate = old
@@ -463,7 +469,7 @@ def h_range_index(start: int, step: int, size: int) -> bool:
     return len(r) == size and all(r[k] == start + k * step for k in range(size))
 
 
-def replay_h_range_index(start, step, size):
+def replay_h_range_index(start, step, size, first=1):
     import tempfile, os, shutil
     import pandas as pd
     import fastparquet
@@ -473,7 +479,12 @@ def replay_h_range_index(start, step, size):
     d = tempfile.mkdtemp(prefix="c06-")
     try:
         fn = os.path.join(d, "t.parq")
-        fastparquet.write(fn, df)
+        if 1 <= first < size:
+            # the first `first` rows written, the rest appended
+            fastparquet.write(fn, df.iloc[:first])
+            fastparquet.write(fn, df.iloc[first:], append=True)
+        else:
+            fastparquet.write(fn, df)
         try:
             out = fastparquet.ParquetFile(fn).to_pandas()
         except Exception as ex:
